@@ -663,11 +663,34 @@ class Program(T.NamedTuple):
     label: str
 
 
+MAX_VALUE_TEXT = 3000      # generated programs keep every value small (no exponential growth through loops)
+
+
+def _size(v: T.Any) -> int:
+    t = type(v)
+    if t is str:
+        return len(v) + 2
+    if t is list:
+        return 2 + sum(_size(x) for x in v)
+    if t is dict:
+        return 2 + sum(len(k) + 4 + _size(x) for k, x in v.items())
+    if t is int:
+        return len(str(v)) if abs(v) < 10 ** 400 else 10 ** 6
+    return 8
+
+
 def ref_exec(chunk: str, env: T.Dict[str, T.Any], extra_files: T.Optional[T.Dict[str, str]] = None) -> R.Outcome:
     files = {'meson.build': "project('x')\n" + chunk}
     if extra_files:
         files.update(extra_files)
-    return R.Evaluator(files, env=dict(env)).run()
+    ev = R.Evaluator(files, env=dict(env))
+    ev.max_steps = 20000
+    ev.max_value_len = 4 * MAX_VALUE_TEXT
+    out = ev.run()
+    if out.ok and (any(_size(v) > MAX_VALUE_TEXT for v in out.variables.values())
+                   or sum(len(m) for _, m in out.messages) > 20000):
+        out.error = R.RefUnspecified('generated values too large (generator limit)')
+    return out
 
 
 class ProgramGen:
@@ -902,6 +925,29 @@ class ProgramGen:
         tail = 'message(' + ', '.join(f"'{n}', {n}" for n in defined) + ')\n' + ''.join(f'##ASSERT {n}\n' for n in defined)
         return '\n'.join(lines) + '\n' + tail, {}
 
+    def chunk_nearmiss(self) -> T.Tuple[str, T.Dict[str, str]]:
+        """Equality / membership between a value and a near miss of it (one element changed, reordered,
+        other case, one blank more ...): where sloppy comparison semantics show."""
+        rng = self.rng
+        eg = self.eg()
+        typ = rng.choice(['int', 'str', 'array', 'dict', 'array', 'dict'])
+        v = eg.value(typ)
+        for _ in range(6):
+            if typ in ('array', 'dict') and len(v) < 2:
+                v = eg.value(typ)
+        w = near(rng, v)
+        a, b = lit(rng, v), lit(rng, w)
+        if typ == 'int':
+            a, b = (f'({a})' if v < 0 else a), (f'({b})' if w < 0 else b)
+        forms = [f'{a} == {b}', f'{a} != {b}', f'{b} == {a}', f'{a} in [{b}]', f'{a} not in [{b}, {b}]', f'[{b}].contains({a})',
+                 f'[{a}] == [{b}]', f"{{'k': {a}}} == {{'k': {b}}}"]
+        if typ == 'str':
+            forms += [f'{a} in {b}', f'{b}.contains({a})', f'{b}.startswith({a})', f'{a}.endswith({b})',
+                      f"{a} in {{{b}: 1}}", f"{{{b}: 1}}.has_key({a})"]
+        name = self.fresh('nm')
+        picks = rng.sample(forms, 3)
+        return f"{name} = [{', '.join(picks)}]\n" + self.observe(name), {}
+
     def chunk_message(self) -> T.Tuple[str, T.Dict[str, str]]:
         eg = self.eg()
         args = [eg.expr('any', 2).s for _ in range(self.rng.randint(1, 4))]
@@ -991,7 +1037,7 @@ class ProgramGen:
             s += f"message('hidden', is_variable('{hidden[0]}'))\n"
         return s, {f'subprojects/{sp}/meson.build': text}
 
-    CHUNKS = [('assign', 30), ('plusassign', 8), ('alias', 6), ('torture', 7), ('if', 8), ('foreach', 10), ('variables', 5),
+    CHUNKS = [('assign', 30), ('plusassign', 8), ('alias', 6), ('torture', 7), ('nearmiss', 7), ('if', 8), ('foreach', 10), ('variables', 5),
               ('message', 5), ('shortcircuit', 4), ('exprstmt', 2)]
     COMMENTS = ["# plain comment", "# it's \"quoted\" \\ @x@ '''", "", "\t# indented", "#", "# endif foreach x : y"]
 
